@@ -390,7 +390,7 @@ def shrink(binary, case, pred, budget=60):
 
 def schedule_cases(r, thorough, prop_corpus):
     cases = directed_cases() + prop_corpus
-    for _ in range(6000 if thorough else 450):
+    for _ in range(60000 if thorough else 450):
         cases.append(gen_f7_like(r) if r.random() < 0.15 else gen_case(r))
     if thorough:
         cases += exhaustive_cases(4)
@@ -650,7 +650,7 @@ def run_runner_scenarios(chk, binary, r, thorough, tags, prop, with_f7):
     """corr:runner-wiring: returns number of scenarios validated"""
     scs = [dict(RUNNER_F7)] if with_f7 else []
     scs += [dict(RUNNER_SLOTS), gen_runner(r, "none"), gen_runner(r, "j1"), gen_runner(r, "j1")]
-    while len(scs) < (60 if thorough else 12):
+    while len(scs) < (120 if thorough else 12):
         scs.append(gen_runner(r))
     impl = vlib.run_impl(binary, "fq", [{k: v for k, v in s.items() if k != "tag"} for s in scs], timeout=900)
     # model: serial start order = priority_queue (Model/Priority.v)
